@@ -70,7 +70,7 @@ def _events(args):
 
     rng = random.Random((seed * 32452843 + idx) & 0xFFFFFFFF)
     w = gen.gen_world(rng, nmin=4, nmax=16)
-    text, used, struct = gen.gen_formula(rng, groups=True, max_terms=3, resp="y", cat_comps=["f", "g", "h", "o", "C(k)", "C(k, levels=KL)", "I(h)"], num_comps=["x", "z", "I(x * 2)"])
+    text, used, struct = gen.gen_formula(rng, groups=True, max_terms=3, resp="y", cat_comps=["f", "g", "h", "o", "C(k)", "C(k, levels=KL)", "I(h)", "S(h)", "C(g, Sum)"], num_comps=["x", "z", "I(x * 2)"])
     st, dm = design.build(text, w.df, extra_namespace=dict(w.namespace))
     if st != "ok":
         return [], text
